@@ -15,6 +15,7 @@ pub enum AtAnchor {
     FnStart,
     FnEnd,
     LoopAfter(usize),
+    LoopBefore(usize),
     LoopBodyStart(usize),
     LoopBodyEnd(usize),
     StmtBefore(String),
@@ -462,6 +463,10 @@ impl VisitMut for Marker {
                 match a {
                     AtAnchor::LoopAfter(m) if Some(m) == lo => {
                         after.push(marker_stmt("__VX_AT_", k));
+                        self.placed.insert(k);
+                    }
+                    AtAnchor::LoopBefore(m) if Some(m) == lo => {
+                        before.push(marker_stmt("__VX_AT_", k));
                         self.placed.insert(k);
                     }
                     AtAnchor::StmtBefore(ref key) | AtAnchor::StmtAfter(ref key) => {
